@@ -13,6 +13,9 @@
 (*                                                                         *)
 (* Actions = bucket mutations and the calls that must not mutate:          *)
 (*   SaveBegin (assert writable, encode)  PutFull  PutMeta  Crash          *)
+(*   ResaveBegin (a stored recording is fetched and saved again under the  *)
+(*   same id)   Reject (the bucket refuses the pending put: nothing is     *)
+(*   written, the save raises, the cassette object lives on)               *)
 (*   RoAttempt (create/save on a read-only cassette: AssertionError)       *)
 (*   CloseDelFull  CloseDelMeta  (transient, writable close: two prefix    *)
 (*   deletions)   CloseNoop (any other close / context-manager exit)       *)
@@ -24,11 +27,13 @@ CONSTANTS Cass,       \* set of cassette names
           CassDef,    \* [Cass -> [ro, transient, prefix]]  prefix: sequence of characters, <<>> = default
           Cats,       \* categories: sequences of characters
           MaxSaves,
+          MaxResaves, \* how many times a stored recording may be saved again (0: never)
+          Rejects,    \* BOOLEAN: may the bucket refuse a put (service error)?
           PutOrder,   \* "full-first" (the design) or "meta-first"
           DeleteWhole \* FALSE (the design: delete .../full/ and .../metadata/) or TRUE (delete the whole key prefix)
 
-VARIABLES bucket, inflight, log, closing, nid, ev
-vars == <<bucket, inflight, log, closing, nid, ev>>
+VARIABLES bucket, inflight, log, closing, closeFrom, nid, nres, ev
+vars == <<bucket, inflight, log, closing, closeFrom, nid, nres, ev>>
 
 Norm(p)     == IF p = <<>> THEN <<>> ELSE p \o <<"/">>
 Root(c)     == <<"R">> \o Norm(CassDef[c].prefix)
@@ -49,7 +54,9 @@ Init == /\ bucket = Foreign
         /\ inflight = [c \in Cass |-> NoFlight]
         /\ log = <<>>
         /\ closing = [c \in Cass |-> "no"]
+        /\ closeFrom = [c \in Cass |-> 0]      \* length of the mutation log when the cassette's close() began
         /\ nid = 0
+        /\ nres = 0
         /\ ev = Ev0
 
 Writable(c) == ~CassDef[c].ro
@@ -60,7 +67,18 @@ SaveBegin(c, cat) ==
     /\ nid' = nid + 1
     /\ inflight' = [inflight EXCEPT ![c] = [id |-> IdOf(cat, Names[nid + 1]), stage |-> "encoded"]]
     /\ ev' = [Ev0 EXCEPT !.kind = "savebegin", !.c = c, !.id = IdOf(cat, Names[nid + 1])]
-    /\ UNCHANGED <<bucket, log, closing>>
+    /\ UNCHANGED <<bucket, log, closing, closeFrom, nres>>
+
+\* a recording this cassette can discover and fetch is fetched, amended and saved again under its id
+StoredIds(c) == { SubSeq(k, Len(Root(c)) + 2, Len(k)) : k \in {x \in bucket : IsPrefix(Root(c) \o <<"M">>, x)} }
+ResaveBegin(c, id) ==
+    /\ Writable(c) /\ inflight[c].stage = "none" /\ closing[c] = "no" /\ nres < MaxResaves
+    /\ id \in StoredIds(c) /\ FullKey(c, id) \in bucket
+    /\ \A d \in Cass : Root(d) = Root(c) => closing[d] = "no" /\ inflight[d].stage = "none"
+    /\ nres' = nres + 1
+    /\ inflight' = [inflight EXCEPT ![c] = [id |-> id, stage |-> "encoded"]]
+    /\ ev' = [Ev0 EXCEPT !.kind = "resavebegin", !.c = c, !.id = id]
+    /\ UNCHANGED <<bucket, log, closing, closeFrom, nid>>
 
 Put(c, k, stage) ==
     /\ bucket' = bucket \cup {k}
@@ -73,22 +91,29 @@ Second(c) == IF PutOrder = "full-first" THEN MetaKey(c, inflight[c].id) ELSE Ful
 Put1(c) == /\ inflight[c].stage = "encoded"
            /\ Put(c, First(c), "put1")
            /\ ev' = [Ev0 EXCEPT !.kind = "put1", !.c = c, !.key = First(c), !.id = inflight[c].id]
-           /\ UNCHANGED <<closing, nid>>
+           /\ UNCHANGED <<closing, closeFrom, nid, nres>>
 Put2(c) == /\ inflight[c].stage = "put1"
            /\ Put(c, Second(c), "done")
            /\ ev' = [Ev0 EXCEPT !.kind = "put2", !.c = c, !.key = Second(c), !.id = inflight[c].id]
-           /\ UNCHANGED <<closing, nid>>
+           /\ UNCHANGED <<closing, closeFrom, nid, nres>>
 
 \* the process dies in the middle of a save (after any number of its bucket mutations)
 Crash(c) == /\ inflight[c].stage \in {"encoded", "put1"}
             /\ inflight' = [inflight EXCEPT ![c] = NoFlight]
             /\ ev' = [Ev0 EXCEPT !.kind = "crash", !.c = c, !.id = inflight[c].id]
-            /\ UNCHANGED <<bucket, log, closing, nid>>
+            /\ UNCHANGED <<bucket, log, closing, closeFrom, nid, nres>>
+
+\* the bucket refuses the pending put of a save (throttling, 5xx): nothing is written, save_recording raises
+Reject(c) == /\ Rejects /\ inflight[c].stage \in {"encoded", "put1"}
+             /\ inflight' = [inflight EXCEPT ![c] = NoFlight]
+             /\ ev' = [Ev0 EXCEPT !.kind = "reject", !.c = c, !.id = inflight[c].id,
+                                  !.key = IF inflight[c].stage = "encoded" THEN First(c) ELSE Second(c)]
+             /\ UNCHANGED <<bucket, log, closing, closeFrom, nid, nres>>
 
 \* create / save attempted on a read-only cassette: refused before anything is touched
 RoAttempt(c) == /\ CassDef[c].ro /\ closing[c] = "no"
                 /\ ev' = [Ev0 EXCEPT !.kind = "roattempt", !.c = c]
-                /\ UNCHANGED <<bucket, inflight, log, closing, nid>>
+                /\ UNCHANGED <<bucket, inflight, log, closing, closeFrom, nid, nres>>
 
 DelPrefix(c, p) ==
     LET gone == {k \in bucket : IsPrefix(p, k)} IN
@@ -99,19 +124,21 @@ DelPrefix(c, p) ==
 CloseDel1(c) == /\ Writable(c) /\ CassDef[c].transient /\ closing[c] = "no" /\ inflight[c].stage = "none"
                 /\ DelPrefix(c, IF DeleteWhole THEN Root(c) ELSE Root(c) \o <<"F">>)
                 /\ closing' = [closing EXCEPT ![c] = "half"]
-                /\ UNCHANGED <<inflight, nid>>
+                /\ closeFrom' = [closeFrom EXCEPT ![c] = Len(log)]
+                /\ UNCHANGED <<inflight, nid, nres>>
 CloseDel2(c) == /\ closing[c] = "half"
                 /\ DelPrefix(c, IF DeleteWhole THEN Root(c) ELSE Root(c) \o <<"M">>)
                 /\ closing' = [closing EXCEPT ![c] = "done"]
-                /\ UNCHANGED <<inflight, nid>>
+                /\ UNCHANGED <<inflight, closeFrom, nid, nres>>
 CloseNoop(c) == /\ (CassDef[c].ro \/ ~CassDef[c].transient) /\ closing[c] = "no" /\ inflight[c].stage = "none"
                 /\ closing' = [closing EXCEPT ![c] = "done"]
                 /\ ev' = [Ev0 EXCEPT !.kind = "closenoop", !.c = c]
-                /\ UNCHANGED <<bucket, inflight, log, nid>>
+                /\ UNCHANGED <<bucket, inflight, log, closeFrom, nid, nres>>
 
 Next == \E c \in Cass :
            \/ \E cat \in Cats : SaveBegin(c, cat)
-           \/ Put1(c) \/ Put2(c) \/ Crash(c) \/ RoAttempt(c)
+           \/ \E id \in StoredIds(c) : ResaveBegin(c, id)
+           \/ Put1(c) \/ Put2(c) \/ Crash(c) \/ Reject(c) \/ RoAttempt(c)
            \/ CloseDel1(c) \/ CloseDel2(c) \/ CloseNoop(c)
 Spec == Init /\ [][Next]_vars
 
@@ -122,7 +149,10 @@ ForeignUntouched == Foreign \subseteq bucket
 \* closing a transient cassette removes all of its own recordings ...
 TransientCloseRemovesOwn ==
     \A c \in Cass : closing[c] = "done" /\ Writable(c) /\ CassDef[c].transient =>
-        \A i \in 1 .. Len(log) : (log[i].c = c /\ log[i].op = "put") => log[i].key \notin bucket
+        \A i \in 1 .. Len(log) : (log[i].c = c /\ log[i].op = "put") =>
+            \/ log[i].key \notin bucket
+            \* ... unless another cassette with the same prefix stored that key (again) after this close() had begun
+            \/ \E j \in closeFrom[c] + 1 .. Len(log) : log[j].op = "put" /\ log[j].key = log[i].key /\ log[j].c # c
 \* ... and nothing else: what another cassette saved is only ever removed by that cassette (or one with the same prefix)
 OthersKept ==
     \A i \in 1 .. Len(log) : log[i].op = "delete" =>
